@@ -200,6 +200,34 @@ package %s
 	return out.String()
 }
 
+// gtCodecs: the target-group type of each pairing curve and its number of base-field coordinates
+func gtCodecs(srcRoot string) map[string][2]string {
+	out := map[string][2]string{}
+	for _, c := range [][3]string{{"e12.go", "E12", "12"}, {"e24.go", "E24", "24"}, {"e6.go", "E6", "6"}} {
+		files, _ := filepath.Glob(filepath.Join(srcRoot, "ecc", "*", "internal", "fptower", c[0]))
+		for _, f := range files {
+			b, _ := os.ReadFile(f)
+			if strings.Contains(string(b), "func (z *"+c[1]+") SetBytes(e []byte) error {") && strings.Contains(string(b), "SizeOfGT") {
+				out["./"+strings.TrimPrefix(filepath.Dir(f), srcRoot+"/")] = [2]string{c[1], c[2]}
+			}
+		}
+	}
+	return out
+}
+
+func writeGTCodec(repoRoot, srcRoot, verifRoot string, check bool) int {
+	t, err := os.ReadFile(filepath.Join(verifRoot, "contracts", "tower", "gtcodec.go.tmpl"))
+	if err != nil {
+		return 0
+	}
+	stale := 0
+	for pk, c := range gtCodecs(srcRoot) {
+		s := strings.ReplaceAll(strings.ReplaceAll(string(t), "GTTYPE", c[0]), "NCOORD", c[1])
+		stale += installText(filepath.Join(repoRoot, strings.TrimPrefix(pk, "./"), "zz_verif_contracts_gtcodec.go"), s, check)
+	}
+	return stale
+}
+
 func writeStream(repoRoot, srcRoot string, check bool) int {
 	stale := 0
 	for _, pk := range marshalPkgs(srcRoot) {
